@@ -192,6 +192,7 @@ func (w *Walk) opTransfer() *node.Leg {
 		return nil
 	}
 	to := w.pickDest(from)
+	selfXfer := r.Chance(6)
 	var extra [][]byte
 	if r.Chance(35) {
 		extra = w.attached()
@@ -210,6 +211,9 @@ func (w *Walk) opTransfer() *node.Leg {
 			return nil
 		}
 		h := f[r.Intn(len(f))]
+		if selfXfer {
+			to = from // a transfer to oneself: debit and credit hit the same entry
+		}
 		c = gen.TransferCall(from, to, h.ID, w.pickAmount(h.Amount), gen.BigGas, extra...)
 	case 1: // single NFT
 		var f []gen.Holding
@@ -357,10 +361,32 @@ func (w *Walk) opSystem() *node.Leg {
 		if role == RoleCreate {
 			return nil
 		}
-		if w.M.S.HasRole(acc, t.ID, role) {
-			return u.UnsetRoles(acc, t.ID, role)
+		// one to three roles in one call: all held -> unset them, else set the ones not held
+		cand := []string{role}
+		for k := 0; k < r.Intn(3); k++ {
+			x := gen.AllRoles[r.Intn(len(gen.AllRoles))]
+			dup := x == RoleCreate
+			for _, y := range cand {
+				if x == y {
+					dup = true
+				}
+			}
+			if !dup {
+				cand = append(cand, x)
+			}
 		}
-		return u.SetRoles(acc, t.ID, role)
+		var held, notHeld []string
+		for _, x := range cand {
+			if w.M.S.HasRole(acc, t.ID, x) {
+				held = append(held, x)
+			} else {
+				notHeld = append(notHeld, x)
+			}
+		}
+		if len(notHeld) == 0 || (len(held) > 0 && r.Bool()) {
+			return u.UnsetRoles(acc, t.ID, held...)
+		}
+		return u.SetRoles(acc, t.ID, notHeld...)
 	default: // hand the create role over
 		t := u.Tokens[2+r.Intn(2)]
 		tok := string(t.ID)
@@ -546,7 +572,13 @@ func (w *Walk) opHostile() *node.Leg {
 			}
 		}
 	}
-	c := node.Call{Func: fn, Caller: caller, Recipient: rcv, Args: args, Gas: []uint64{0, 1, 100, 5000, gen.BigGas, ^uint64(0)}[r.Intn(6)], CallType: vmcommon.CallType(r.Intn(4)), GasLocked: uint64(r.Intn(2)) * 77}
+	gasv := []uint64{0, 1, 100, 5000, gen.BigGas, ^uint64(0)}[r.Intn(6)]
+	if fn == FMulti && n >= 2 && r.Chance(25) {
+		// a token count whose 3n+c bound wraps, with all the gas there is
+		args[1] = gen.U64([]uint64{6148914691236517205, 6148914691236517206, 12297829382473034410, 12297829382473034411}[r.Intn(4)])
+		gasv = ^uint64(0)
+	}
+	c := node.Call{Func: fn, Caller: caller, Recipient: rcv, Args: args, Gas: gasv, CallType: vmcommon.CallType(r.Intn(4)), GasLocked: uint64(r.Intn(2)) * 77}
 	if r.Chance(5) {
 		c.CallValue = big.NewInt(1)
 	}
